@@ -62,4 +62,9 @@ CHECKS = {
   "text": "About 180 generated generators per quick run (n=2..6, nested depth<=3) plus 24 distribution samples of 2e4-5e4 events; thorough 2e3 + 190 samples of 5e4-1e5. Exploration level; distributional clauses are statistical.",
   "note": "Trusted: numpy kinematics, Gauss-Legendre reference density (checked against brute-force integration), scipy KS p-values. After cal_max_weight only the default importance-weighted acceptance weight is asserted <=1. Generators with acceptance <2e-5 (uncalibrated many-body) are counted, not sampled.",
  },
+ "C20": {
+  "technique": "property-based testing: generated acceptance-rejection runs with a spy on every round (exact count, accepted weight <= bound, KS against the analytic CDF), generated toy cards compared with a density-weighted phase-space reference, Hypothesis-drawn non-uniform grids for the inverse-transform samplers (round-trip identities, scipy reference, chi-square cell occupancy), adaptive-bin partitions and signed-weight histograms against numpy bookkeeping",
+  "text": "About 2100 generated cases per quick run (5e4 thorough). Exploration level; distributional clauses are statistical at p<1e-9 per case.",
+  "note": "Trusted: scipy.stats p-values, scipy RegularGridInterpolator, numpy bincount. LinearInterp asserted for node values that are zero or of order one and u in [1e-6, 1); adaptive bins with >= 8 events per bin.",
+ },
 }
